@@ -47,6 +47,7 @@ func c08Ops() []c08Op {
 	}
 	ops = append(ops, c08Op{kind: "resume2", name: "a second, concurrent resume with the latest id"})
 	ops = append(ops, c08Op{kind: "ping", name: "server sends a request of its own (ping) on the stream"})
+	ops = append(ops, c08Op{kind: "write-done-ctx", name: "server writes the next message under a context that has already ended"})
 	ops = append(ops, c08Op{kind: "fresh", name: "client opens the standalone stream anew, without Last-Event-ID"})
 	ops = append(ops, c08Op{kind: "purge", name: "memory pressure: the event store evicts what it can"})
 	ops = append(ops, c08Op{kind: "resume-broken", k: 0, name: "client resumes with the id of event #0 over a connection that breaks after the first replayed event"})
@@ -108,7 +109,14 @@ func c08InBubble(o c08Opts, ops []c08Op, hist []int) verifx.SearchResult {
 				continue
 			}
 			n++
-			r.Session.NotifyProgress(ctx, &ProgressNotificationParams{ProgressToken: "tok", Progress: float64(n), Message: fmt.Sprintf("note %d", n)})
+			nctx := ctx
+			if cmd == "notify-done-ctx" {
+				// (a handler reporting "timed out" with the expired context of the step that timed out)
+				c2, cancel := context.WithCancel(ctx)
+				cancel()
+				nctx = c2
+			}
+			r.Session.NotifyProgress(nctx, &ProgressNotificationParams{ProgressToken: "tok", Progress: float64(n), Message: fmt.Sprintf("note %d", n)})
 		}
 		return &CallToolResult{Content: []Content{&TextContent{Text: "final"}}}, nil, nil
 	})
@@ -216,6 +224,7 @@ func c08InBubble(o c08Opts, ops []c08Op, hist []int) verifx.SearchResult {
 		return ""
 	}
 	writes := 0
+	doneCtxWrites := 0
 	pings := 0
 	purges := 0
 	responded := false
@@ -287,6 +296,20 @@ func c08InBubble(o c08Opts, ops []c08Op, hist []int) verifx.SearchResult {
 		op := ops[oi]
 		where := fmt.Sprintf("step %d (%s)", step, op.name)
 		switch op.kind {
+		case "write-done-ctx":
+			if responded || writes >= 3 || doneCtxWrites >= 1 {
+				return verifx.SearchResult{Skip: true}
+			}
+			writes++
+			doneCtxWrites++
+			if o.standalone {
+				c2, cancel := context.WithCancel(ctx)
+				cancel()
+				sess.NotifyProgress(c2, &ProgressNotificationParams{ProgressToken: "tok", Progress: float64(writes), Message: fmt.Sprintf("note %d", writes)})
+			} else {
+				cmds <- "notify-done-ctx"
+			}
+			obs = "write-done-ctx"
 		case "write":
 			if responded || writes >= 4 || (o.standalone && writes >= 3) {
 				return verifx.SearchResult{Skip: true}
@@ -461,7 +484,7 @@ func c08InBubble(o c08Opts, ops []c08Op, hist []int) verifx.SearchResult {
 	if attached != nil && !attached.ended && !attached.cut {
 		att = fmt.Sprintf("attached@%d", attached.startIdx)
 	}
-	return verifx.SearchResult{Key: fmt.Sprintf("appended=%d responded=%v %s writes=%d pings=%d purges=%d last=%s", len(gt), responded, att, writes, pings, purges, obs), Obs: obs}
+	return verifx.SearchResult{Key: fmt.Sprintf("appended=%d responded=%v %s writes=%d/%d pings=%d purges=%d last=%s", len(gt), responded, att, writes, doneCtxWrites, pings, purges, obs), Obs: obs}
 }
 
 func TestVerifC08(t *testing.T) {
@@ -483,7 +506,7 @@ func TestVerifC08(t *testing.T) {
 	} {
 		env.RunSearch(res, &verifx.Search{
 			Name: o.name, NumOps: len(ops), OpName: func(i int) string { return ops[i].name },
-			MaxDepth: env.Pick(6, 8), ShallowDepth: env.Pick(4, 5),
+			MaxDepth: env.Pick(6, 8), ShallowDepth: env.Pick(3, 5),
 			Run: func(h []int) verifx.SearchResult { return c08Run(t, o.o, ops, h) },
 		})
 	}
